@@ -8,6 +8,39 @@ use std::panic::catch_unwind;
 /// the convenience accessors must return what the provider-taking core accessors return (fields all distinct)
 pub fn search(rng: &mut Rng, budget: u64, fails: &mut Vec<Failure>) {
     let provider = FsTzdbProvider::default();
+    // day-level convenience operations on days whose first instant is not 00:00 (gap at / across midnight), on ordinary days
+    // and on days with a repeated hour: start_of_day, with_plain_time, to_plain_*, add / subtract, string form, transitions
+    for (ns, tzs) in [(-1_601_740_800_000_000_000i128, "America/Toronto"), (1_541_340_000_000_000_000, "America/Sao_Paulo"), (1_718_469_000_000_000_000, "America/New_York"),
+        (1_636_263_000_000_000_000, "America/New_York"), (1_615_710_600_000_000_000, "America/New_York"), (-1_601_753_400_000_000_000, "America/Toronto"), (0, "+05:30")] {
+        let Ok(tz) = TimeZone::try_from_str(tzs) else { continue };
+        for dns in [0i128, -43_200_000_000_000, 43_200_000_000_000, 86_400_000_000_000] {
+            let ns = ns + dns;
+            let Ok(z) = ZonedDateTime::try_new(ns, Calendar::default(), tz.clone()) else { continue };
+            macro_rules! cmp { ($name:literal, $a:expr, $b:expr) => {
+                match (catch_unwind(std::panic::AssertUnwindSafe(|| $a)), catch_unwind(std::panic::AssertUnwindSafe(|| $b))) {
+                    (Ok(Ok(a)), Ok(Ok(b))) => if a != b { fails.push(Failure { what: format!("ZonedDateTime::{} != {}_with_provider", $name, $name), input: format!("epoch_ns={ns} tz={tzs}"), expected: format!("{:?}", b), observed: format!("{:?}", a) }); },
+                    (Ok(Err(_)), Ok(Err(_))) => {}
+                    (Err(_), Err(_)) => {}
+                    _ => fails.push(Failure { what: format!("ZonedDateTime::{} differs in outcome", $name), input: format!("epoch_ns={ns} tz={tzs}"), expected: "same outcome".into(), observed: "different".into() }),
+                } } }
+            let showz = |r: temporal_rs::TemporalResult<ZonedDateTime>| r.map(|z| z.epoch_nanoseconds().as_i128());
+            cmp!("start_of_day", showz(z.start_of_day()), showz(z.start_of_day_with_provider(&provider)));
+            for (h, mi) in [(0u8, 0u8), (0, 15), (1, 30), (2, 30), (12, 0), (23, 45)] {
+                let Ok(t) = temporal_rs::PlainTime::try_new(h, mi, 0, 0, 0, 0) else { continue };
+                cmp!("with_plain_time", showz(z.with_plain_time(t)), showz(z.with_plain_time_and_provider(t, &provider)));
+            }
+            cmp!("to_plain_date", z.to_plain_date().map(|d| (d.iso_year(), d.iso_month(), d.iso_day())), z.to_plain_date_with_provider(&provider).map(|d| (d.iso_year(), d.iso_month(), d.iso_day())));
+            cmp!("to_plain_time", z.to_plain_time().map(|t| (t.hour(), t.minute(), t.second(), t.nanosecond())), z.to_plain_time_with_provider(&provider).map(|t| (t.hour(), t.minute(), t.second(), t.nanosecond())));
+            cmp!("to_plain_datetime", z.to_plain_datetime().map(|t| (t.iso_year(), t.iso_month(), t.iso_day(), t.hour(), t.minute())), z.to_plain_datetime_with_provider(&provider).map(|t| (t.iso_year(), t.iso_month(), t.iso_day(), t.hour(), t.minute())));
+            for (dd, hh) in [(1i64, 0i64), (-1, 0), (0, 25), (1, 1), (0, -3), (31, 0), (-1, -1)] {
+                let Ok(du) = ({ use temporal_rs::primitive::FiniteF64 as F; let z0 = F::default(); temporal_rs::Duration::new(z0, z0, z0, F::try_from(dd as f64).unwrap(), F::try_from(hh as f64).unwrap(), z0, z0, z0, z0, z0) }) else { continue };
+                cmp!("add", showz(z.add(&du, None)), showz(z.add_with_provider(&du, None, &provider)));
+                cmp!("subtract", showz(z.subtract(&du, None)), showz(z.subtract_with_provider(&du, None, &provider)));
+            }
+            cmp!("hours_in_day", z.hours_in_day(), z.hours_in_day_with_provider(&provider));
+            if fails.len() >= 5 { return; }
+        }
+    }
     for k in 0..(budget / 200).max(20) {
         let ns = if k == 0 { 1_701_308_952_123_456_789i128 } else { rng.range(-4_000_000_000_000_000_000, 4_000_000_000_000_000_000) };
         for tzs in ["UTC", "+05:30", "America/New_York"] {
